@@ -46,8 +46,14 @@ BaseLists == IF ~HasPool THEN {} ELSE UNION {ListsOfLen(NP + x) : x \in Extras}
 TyOf(v) == v.ty
 \* unknown / null values of the parameter's DECLARED constraint where it still contains the placeholder (set(dynamic), list(dynamic), ...)
 DeclInj(i) == IF HasDyn(PTy(i)) /\ PTy(i).k # "dynamic" THEN {Unk(PTy(i), NoRf), Null(PTy(i)), Unk(PTy(i), [null |-> "F"])} ELSE {}
+\* refined unknown values of the argument's type, including refinements that pin one dimension exactly while the value stays unknown
+\* (an exact length with unknown nullness, a length the members of a set cannot make known, a single admitted number)
+RefinedInj(t) == UnkVals(t) \cup
+   (IF IsCollT(t) THEN {Unk(t, [null |-> "U", minLen |-> 1, maxLen |-> 1]), Unk(t, [null |-> "U", minLen |-> 2, maxLen |-> 2]), Unk(t, [null |-> "F", minLen |-> 2, maxLen |-> 2]), Unk(t, [null |-> "U", maxLen |-> 0])}
+    ELSE IF t.k = "number" THEN {Unk(t, [null |-> "U", lo |-> Qn(4), loInc |-> TRUE, hi |-> Qn(4), hiInc |-> TRUE])} ELSE {})
 Inject(a, i) == LET v == a[i] IN
    {[a EXCEPT ![i] = w] : w \in {Null(v.ty), Unk(v.ty, NoRf), Unk(v.ty, [null |-> "F"]), DynVal, Null(TDyn), WithMk(v, <<"m1">>), WithMk(Unk(v.ty, NoRf), <<"m2">>)} \cup DeclInj(i)
+                                 \cup RefinedInj(v.ty)
                                  \cup TakeN(MarkNested(v, <<"m2">>), 2) \cup TakeN(Weak1(v, TRUE), 2)}
 Injected(a) == UNION {Inject(a, i) : i \in 1..Len(a)}
 InjBase == IF Cardinality(BaseLists) <= 25 THEN BaseLists ELSE RandomSubset(25, BaseLists)
